@@ -56,11 +56,13 @@ theorem rel64_sym_info (s t : BitVec 32) :
 theorem rel64_type_info (s t : BitVec 32) :
     rel64_r_type (rsw_rel64_info s t) = t := by
   simp only [rel64_r_type, rsw_rel64_info]; bv_decide
-theorem rel32_sym_info (s t : BitVec 32) (h : s &&& 0xFF000000#32 = 0#32) :
+theorem rel32_sym_info (s t : BitVec 32) (h : BitVec.ult s 16777216#32 = true) :
     rel32_r_sym (BitVec.setWidth 64 (rsw_rel32_info s t)) = s := by
   simp only [rel32_r_sym, rsw_rel32_info]; bv_decide
 theorem rel32_type_info (s : BitVec 32) (t' : BitVec 64) :
     rel32_r_type (BitVec.setWidth 64 (rsw_rel32_info s (rel32_r_type t'))) = rel32_r_type t' := by
   simp only [rel32_r_type, rsw_rel32_info]; bv_decide
+theorem setWidth_signExtend_32 (v : BitVec 32) : BitVec.setWidth 32 (BitVec.signExtend 64 v) = v := by
+  bv_decide
 
 end ElfioVerif
